@@ -24,7 +24,8 @@ func init() {
 		Level: "fault_enumeration",
 		Rule: "E-proc conservation: thousands of create/use/close cycles over prior histories {idle, 1-40 watches, pending events nobody reads, pending error (overflow marker is too costly per cycle: rename-then-delete family), 1-8 concurrent Close, Close racing Add/Remove}; " +
 			"after Close returned and both channels closed, within a bounded number of polls: number of anon_inode:inotify descriptors == baseline, the Watcher's own descriptor number no longer names an inotify instance, total descriptors == baseline, no goroutine with a readEvents frame. " +
-			"Injected fault: RLIMIT_NOFILE lowered to the number of open descriptors so the first syscall of NewWatcher/NewBufferedWatcher fails with EMFILE, repeated; descriptors and goroutines must stay flat. " +
+			"History kind deleted-watch-pending (the kernel dropped a watch nobody has processed yet); the descriptor must be close-on-exec; Watchers are kept reachable until judged so no finalizer hides a leak. " +
+			"Injected faults: strace EIO on the inotify read followed by Close; RLIMIT_NOFILE lowered to the number of open descriptors so the first syscall of NewWatcher/NewBufferedWatcher fails with EMFILE, repeated; descriptors and goroutines must stay flat. " +
 			"distinct_nontrivial = distinct (history kind, #watches, #closers, buffer) cycles",
 		Assumptions: []string{"closing the inotify instance releases its kernel marks (kernel semantics; per-user mark accounting is not readable)", "'shortly after' = within 2000 polls of 100 us after the channels closed; not reaching baseline within that is a violation only if it persists to the end of the batch"},
 		Batches:     func(t string) int { return map[string]int{"quick": 16, "thorough": 32}[t] },
